@@ -33,6 +33,8 @@ type RetryParams struct {
 	BackoffMs  int      `json:"backoff_ms"`
 	Factor     float64  `json:"factor"`
 	Jitter     float64  `json:"jitter"`
+	// TokenBehaviours: consumed per arriving token request (503 500 429 408 timeout 403), 200 afterwards
+	TokenBehaviours []string `json:"token_behaviours,omitempty"`
 	CancelAtUs int64    `json:"cancel_at_us,omitempty"` // cancel the context at this simulated instant (0 = never)
 	Deadline   bool     `json:"deadline,omitempty"`     // the context ends by a deadline at that instant instead of a cancel call
 	// ViaRepo: the first request is a blob upload made by remote.Repository.Push through
@@ -65,7 +67,7 @@ func init() { register(&retryProp{}) }
 func (p *retryProp) ID() string { return "C17" }
 
 func (p *retryProp) Rule() string {
-	return "scenario = sequence of server behaviours (401 Basic/Bearer, 408, 429 with/without Retry-After, 5xx, timeout, other transport error, 404, success) x body kind (none, replayable, one-shot; 0-256 KiB) x policy parameters (MaxRetry, MinWait, MaxWait, backoff, factor, jitter incl. 0) x cancellation at a simulated instant, plus direct questions to the policy for attempt numbers up to 200; pauses are measured on the simulated clock; non-trivial = at least one retry or re-send after a challenge happened, or the cancellation fell into a pause; distinct = distinct (attempt trace hash)"
+	return "scenario = sequence of server behaviours (401 Basic/Bearer, 408, 429 with/without Retry-After, 5xx, timeout, other transport error, 404, success) x body kind (none, replayable, one-shot; 0-256 KiB) x policy parameters (MaxRetry, MinWait, MaxWait, backoff, factor, jitter incl. 0) x failures of the token endpoint (its requests pass through the same retrying transport and are judged as sends of their own) x cancellation at a simulated instant, plus direct questions to the policy for attempt numbers up to 200; pauses are measured on the simulated clock; non-trivial = at least one retry or re-send after a challenge happened, or the cancellation fell into a pause; distinct = distinct (attempt trace hash)"
 }
 
 func (p *retryProp) Components() map[string][]string {
@@ -136,6 +138,18 @@ func (p *retryProp) Gen(r *Rand, tier string, idx int) any {
 			rp.More = append(rp.More, m)
 		}
 	}
+	if r.Chance(0.4) {
+		// the token endpoint fails too: its requests go through the same retrying transport
+		for k := r.Range(1, 3); k > 0; k-- {
+			rp.TokenBehaviours = append(rp.TokenBehaviours, pick(r, []string{"503", "503", "500", "429", "408", "timeout", "403"}))
+		}
+		if r.Chance(0.5) {
+			rp.Behaviours = append([]string{"401-bearer"}, rp.Behaviours...)
+			if rp.CancelAtUs == 0 && len(rp.More) == 0 && r.Bool() {
+				rp.CancelAtUs = int64(r.Range(1, 1500))*1000 + 1
+			}
+		}
+	}
 	for i := 0; i < 6; i++ {
 		rp.Probe = append(rp.Probe, pick(r, []int{0, 1, 2, 5, 10, 30, 39, 40, 41, 62, 63, 64, 100, 200}))
 	}
@@ -151,6 +165,11 @@ func (p *retryProp) Shrink(raw json.RawMessage) []json.RawMessage {
 	emit := func(c RetryParams) {
 		b, _ := json.Marshal(c)
 		out = append(out, b)
+	}
+	for i := len(rp.TokenBehaviours) - 1; i >= 0; i-- {
+		c := rp
+		c.TokenBehaviours = append(append([]string{}, rp.TokenBehaviours[:i]...), rp.TokenBehaviours[i+1:]...)
+		emit(c)
 	}
 	for i := len(rp.Behaviours) - 1; i >= 0; i-- {
 		c := rp
@@ -193,6 +212,7 @@ type attemptRec struct {
 	errKind   string
 	retryAftr int
 	token     bool
+	tokenReq  bool // a request to the token endpoint (token is also set for other exchanges the behaviours do not script)
 	req       int
 }
 
@@ -203,6 +223,7 @@ type retryServer struct {
 	attempts []*attemptRec
 	next     int
 	tokens   int
+	tokNext  int
 	cur      int      // index of the request being served (0 = first)
 	beh      []string // behaviours of the current request
 }
@@ -253,16 +274,32 @@ func (s *retryServer) RoundTrip(req *http.Request) (*http.Response, error) {
 		// handed to the base transport although the context has ended: an attempt all the same
 		rec.errKind = "ctx-ended"
 		rec.token = strings.HasPrefix(req.URL.Path, "/token")
+		rec.tokenReq = rec.token
 		respErr = req.Context().Err()
 	case req.Method == http.MethodPost && strings.HasSuffix(req.URL.Path, "/blobs/uploads/"):
 		// opening an upload session: not one of the attempts the behaviours script
 		rec.token = true
 		plan(202, http.Header{"Location": {"/v2/r/blobs/uploads/session-1"}}, "")
 	case strings.HasPrefix(req.URL.Path, "/token"):
-		rec.token = true
-		s.tokens++
-		// every fetch yields a new token, so that each re-send carries its own Authorization value
-		plan(200, nil, fmt.Sprintf(`{"access_token":"retry-token-%d"}`, s.tokens))
+		rec.token, rec.tokenReq = true, true
+		tb := "200"
+		if s.tokNext < len(s.rp.TokenBehaviours) {
+			tb = s.rp.TokenBehaviours[s.tokNext]
+			s.tokNext++
+		}
+		rec.behaviour = "token:" + tb
+		switch tb {
+		case "timeout":
+			rec.errKind = "timeout"
+			respErr = timeoutErr{}
+		case "503", "500", "429", "408", "403":
+			st, _ := strconv.Atoi(tb)
+			plan(st, nil, "")
+		default:
+			s.tokens++
+			// every fetch yields a new token, so that each re-send carries its own Authorization value
+			plan(200, nil, fmt.Sprintf(`{"access_token":"retry-token-%d"}`, s.tokens))
+		}
 	default:
 		b := "200"
 		if s.next < len(s.beh) {
@@ -554,7 +591,9 @@ func (p *retryProp) run(rc *RunCtx, rp *RetryParams, info *RunInfo) *Verdict {
 		var lines []string
 		for i, a := range srv.attempts {
 			kind := a.behaviour
-			if a.token {
+			if a.token && !a.tokenReq {
+				kind = "session"
+			} else if a.token && kind == "" {
 				kind = "token"
 			}
 			lines = append(lines, fmt.Sprintf("#%d at %v %s -> status %d %s body=%d/%d authz=%.14q", i+1, a.at, kind, a.status, a.errKind, len(a.body), len(payload), a.authz))
@@ -574,6 +613,55 @@ func (p *retryProp) run(rc *RunCtx, rp *RetryParams, info *RunInfo) *Verdict {
 	}
 	if probeViol != nil {
 		return probeViol
+	}
+	// checkRetry judges one repeated attempt against the one it repeats
+	checkRetry := func(what string, a, prev *attemptRec) *Verdict {
+		retryable := prev.errKind == "timeout" || prev.status == 408 || prev.status == 429 || prev.status >= 500
+		if !retryable {
+			return violation("retried-non-retryable", "", "%s follows a non-retryable answer (%d %s)\n%s", what, prev.status, prev.errKind, describe())
+		}
+		pause := a.at - prev.at
+		if d, ok := recPol.pauseBefore(a.idx); ok && pause < d {
+			return violation("attempt-before-pause-elapsed", "", "%s started %v after the previous one although the policy asked for a pause of %v (context ended at %v)\n%s", what, pause, d, cancelAt, describe())
+		}
+		if pause < minWait || pause > maxWait {
+			return violation("pause-out-of-bounds", "", "pause before %s was %v, bounds are [%v, %v]\n%s", what, pause, minWait, maxWait, describe())
+		}
+		if prev.retryAftr > 0 {
+			ra := time.Duration(prev.retryAftr) * time.Second
+			if ra >= minWait && ra <= maxWait && pause < ra {
+				return violation("retry-after-ignored", "", "pause before %s was %v although the server asked for %v\n%s", what, pause, ra, describe())
+			}
+		}
+		if rp.CancelAtUs > 0 && cancelAt > 0 && a.at > cancelAt {
+			return violation("attempt-after-cancel", "", "%s arrived at %v, after the context was cancelled at %v\n%s", what, a.at, cancelAt, describe())
+		}
+		return nil
+	}
+	// requests to the token endpoint are sends of their own: repeated on retryable failures only,
+	// at most MaxRetry+1 times, after the pause the policy asked for
+	var tokSend []*attemptRec
+	for _, a := range srv.attempts {
+		if !a.tokenReq {
+			tokSend = nil
+			continue
+		}
+		if n := len(tokSend); n > 0 {
+			prev := tokSend[n-1]
+			if prev.status == 200 || a.req != prev.req {
+				tokSend = nil
+			}
+		}
+		tokSend = append(tokSend, a)
+		if len(tokSend) > rp.MaxRetry+1 {
+			return violation("too-many-attempts", "", "a token request was attempted %d times with MaxRetry %d\n%s", len(tokSend), rp.MaxRetry, describe())
+		}
+		if n := len(tokSend); n > 1 {
+			if v := checkRetry(fmt.Sprintf("attempt %d of a token request", n), a, tokSend[n-2]); v != nil {
+				return v
+			}
+			info.Probes["token_request_retried"]++
+		}
 	}
 	retried := false
 	for reqIdx := 0; reqIdx <= len(rp.More); reqIdx++ {
@@ -623,32 +711,14 @@ func (p *retryProp) run(rc *RunCtx, rp *RetryParams, info *RunInfo) *Verdict {
 					continue
 				}
 				retried = true
-				prev := send[ai-1]
-				retryable := prev.errKind == "timeout" || prev.status == 408 || prev.status == 429 || prev.status >= 500
-				if !retryable {
-					return violation("retried-non-retryable", "", "attempt %d of send %d follows a non-retryable answer (%d %s)\n%s", ai+1, si+1, prev.status, prev.errKind, describe())
-				}
-				pause := a.at - prev.at
-				if d, ok := recPol.pauseBefore(a.idx); ok && pause < d {
-					return violation("attempt-before-pause-elapsed", "", "attempt %d of send %d started %v after the previous one although the policy asked for a pause of %v (context ended at %v)\n%s", ai+1, si+1, pause, d, cancelAt, describe())
-				}
-				if pause < minWait || pause > maxWait {
-					return violation("pause-out-of-bounds", "", "pause before attempt %d of send %d was %v, bounds are [%v, %v]\n%s", ai+1, si+1, pause, minWait, maxWait, describe())
-				}
-				if prev.retryAftr > 0 {
-					ra := time.Duration(prev.retryAftr) * time.Second
-					if ra >= minWait && ra <= maxWait && pause < ra {
-						return violation("retry-after-ignored", "", "pause before attempt %d of send %d was %v although the server asked for %v\n%s", ai+1, si+1, pause, ra, describe())
-					}
-				}
-				if rp.CancelAtUs > 0 && cancelAt > 0 && a.at > cancelAt {
-					return violation("attempt-after-cancel", "", "attempt %d of send %d arrived at %v, after the context was cancelled at %v\n%s", ai+1, si+1, a.at, cancelAt, describe())
+				if v := checkRetry(fmt.Sprintf("attempt %d of send %d", ai+1, si+1), a, send[ai-1]); v != nil {
+					return v
 				}
 			}
 			// a new send (after a challenge) happens without pause
 			if si > 0 {
-				prevSend := sends[si-1]
-				last := prevSend[len(prevSend)-1]
+				// (measured from the exchange right before it: the 401, or the token request it led to)
+				last := srv.attempts[send[0].idx-1]
 				gap := send[0].at - last.at
 				if gap != 0 {
 					return violation("pause-after-non-retryable", "", "re-send %d started %v after the 401 it answers\n%s", si+1, gap, describe())
